@@ -4,11 +4,17 @@ use std::io::Write;
 
 pub struct Out {
     pub n: u64,
-    w: std::io::BufWriter<std::io::Stdout>,
+    w: std::io::BufWriter<Box<dyn Write>>,
 }
 impl Out {
+    /// protocol lines go to the file named by TGH_OUT when set (the real code may print to stdout, e.g. in verbose
+    /// mode), else to stdout
     pub fn new() -> Self {
-        Out { n: 0, w: std::io::BufWriter::with_capacity(1 << 20, std::io::stdout()) }
+        let sink: Box<dyn Write> = match std::env::var("TGH_OUT") {
+            Ok(p) => Box::new(std::fs::File::create(p).expect("TGH_OUT")),
+            Err(_) => Box::new(std::io::stdout()),
+        };
+        Out { n: 0, w: std::io::BufWriter::with_capacity(1 << 20, sink) }
     }
     /// run the real code on `input` (through `crate::exec`) and emit the request line
     pub fn case(&mut self, op: &str, input: Value, meta: Value) {
